@@ -125,6 +125,36 @@ Theorem C13_pair_of_strings_roundtrip_partial :
 Proof. exact pair_of_strings_roundtrip. Qed.
 Print Assumptions C13_pair_of_strings_roundtrip_partial.
 
+(* Pair of ANY two scalar halves (String, Secret, Integer/Port, Float, Boolean, LogColor,
+   LogLevel, Path; wrapped by a transformer / path expansion or not): every scalar half in the
+   range of its type round-trips through an encode image ... *)
+Theorem C13_scalar_half :
+  forall so o, str_oracles_ok so o -> str_oracles_plain so ->
+  forall t raw v,
+    scalar t = true -> deserialize o t raw = Ok v ->
+    (forall opt, t = TBoolean opt -> v <> VNone) ->
+    exists x, half_ok so o t v x.
+Proof. exact scalar_half. Qed.
+Print Assumptions C13_scalar_half.
+
+(* ... hence such pairs round-trip whenever the joined text is unambiguous. *)
+Theorem C13_pair_of_scalars_roundtrip_partial :
+  forall so o, str_oracles_ok so o -> str_oracles_plain so ->
+  forall opt optpair sep ta tb r1 r2 a b,
+    scalar ta = true -> scalar tb = true ->
+    deserialize o ta r1 = Ok a -> deserialize o tb r2 = Ok b ->
+    (forall op, ta = TBoolean op -> a <> VNone) -> (forall op, tb = TBoolean op -> b <> VNone) ->
+    sep <> [] -> ~ In BS sep ->
+    forall x1 x2, half_ok so o ta a x1 -> half_ok so o tb b x2 ->
+    strip (x1 ++ sep ++ x2) = x1 ++ sep ++ x2 ->
+    split_once sep (x1 ++ sep ++ x2) = Some (x1, x2) ->
+    (optpair = true -> encode x1 = encode x2 ->
+     x1 <> [] /\ strip x1 = x1 /\ split_once sep x1 = None) ->
+    exists s, serialize so o false (TPair opt optpair sep ta tb) (VPair a b) = SStr s
+              /\ deserialize o (TPair opt optpair sep ta tb) s = Ok (VPair a b).
+Proof. exact pair_of_scalars_roundtrip. Qed.
+Print Assumptions C13_pair_of_scalars_roundtrip_partial.
+
 (* Without the re-encode step the half "C\n" (backslash, n) is unescaped twice. *)
 Theorem C13_pair_without_reencode_refuted :
   exists so o sep t v s,
